@@ -99,7 +99,7 @@ claim("C01", "other",
       "backslash-newline; line_wrap_* compose hard-break and tag handling in the documented order; heap-model frame of the "
       "cleanup rewrite; render_list renders item i under exactly its own marker with a continuation indent as wide as that "
       "marker; contract R on the renderer's block methods (paragraph: one wrapper call with the prefixes in force; heading level "
-      "and separator; rule, HTML block, blank line, link definition, table lines and escaped cell pipes, footnote / alert / "
+      "and separator; rule, HTML block, blank line, link definition, table lines, a table row as every cell once and in order between the pipes, escaped cell pipes, footnote / alert / "
       "quote containers: emitted under the container prefixes, first-line prefix consumed); render_literal / render_line_break "
       "keep or drop an escape exactly as the escape context says (only a hard break resets it); _render_code emits every code "
       "line verbatim. The statement parse(format(x)) ~ parse(x) is explored on a generated document space with flowmark's "
@@ -130,6 +130,7 @@ claim("C04", "other",
       "store only into RawText nodes (across inlines: exactly the slice of the length-preserving rewrite at the node's own "
       "prefix-sum offset); _render_code emits every code line verbatim behind the continuation prefix inside a fence that is a "
       "run of the fence character at least as long as the original and as _min_fence_length demands, with the info string; "
+      "_min_fence_length returns at least 3, more than every run its pattern finds and no more than that demands (loop invariant with a ghost witness; the pattern itself is compared with an independent spec on a bounded sweep); "
       "a code span is written between the shortest backtick run that is no run of its text (loop invariant; the run set through an uninterpreted findall); "
       "code spans, autolinks, URLs, inline HTML, HTML blocks, link definitions and footnote labels are copied from the element's "
       "fields; preprocess_tag_block_spacing inserts only blank lines and none inside fenced code. The literal-span sequence comparison is the bounded "
